@@ -147,6 +147,21 @@ pub fn wire(rec: &mut Recorder, rng: &mut Rng, thorough: bool) {
         rec.put(&format!("pkt de {}", hex(&b)), &res(r));
         rec.count("pkt_short");
     }
+    // a configuration built from explicit fields serialises to exactly those fields (also N above T/Al, Z above Kt)
+    for _ in 0..(if thorough { 5000 } else { 600 }) {
+        let al = *rng.pick(&[1u8, 2, 4, 8, 3, 255]);
+        let t = (al as u16).saturating_mul(rng.range(1, (65535 / al as u64).min(300)) as u16);
+        let z = rng.range(1, 255) as u8;
+        let n = match rng.below(4) { 0 => 1, 1 => (t / al as u16).saturating_add(rng.below(3) as u16), 2 => rng.logu(16) as u16, _ => 65535 };
+        let f = match rng.below(3) { 0 => rng.range(1, t as u64 * z as u64), 1 => rng.range(0, 5), _ => rng.range(1, t as u64 * z as u64 * 56403) }.min(942574504275);
+        let r = guarded(move || { let c = Oti::new(f, t, z, n, al); (c.serialize().to_vec(), Oti::deserialize(&c.serialize()) == c) });
+        let want = vec![(f >> 32) as u8, (f >> 24) as u8, (f >> 16) as u8, (f >> 8) as u8, f as u8, 0, (t >> 8) as u8, t as u8, z, (n >> 8) as u8, n as u8, al];
+        match r {
+            Ok((ser, rt)) => { if ser != want || !rt { rec.impl_violation(format!("ObjectTransmissionInformation::new({f},{t},{z},{n},{al}) serialises to {} instead of the RFC layout {} of these fields (round trip equal: {rt})", hex(&ser), hex(&want))); } }
+            Err(_) => rec.impl_violation(format!("ObjectTransmissionInformation::new({f},{t},{z},{n},{al}) (valid) panics in new/serialize")),
+        }
+        rec.count("oti_from_fields");
+    }
     // OTI: random 12-byte buffers (every field within its width by construction), boundary fields
     let fedge = [0u64, 1, 255, 256, 65535, 65536, (1 << 24) - 1, 1 << 24, (1 << 32) - 1, 1 << 32, (1 << 32) + 5, (1 << 40) - 1, 942574504275, 942574504276, 0x0102030405, 0xFFFEFDFCFB];
     let tedge = [0u16, 1, 2, 255, 256, 257, 1024, 65535, 0x0102, 0xFFFE];
